@@ -70,6 +70,9 @@ def strat(tier):
         'supplied': st.lists(st.integers(0, 10 ** 6), min_size=0, max_size=3),
         'sup_prob': st.integers(0, 9),
         'via_node': st.booleans(),
+        # how the supplied values reach the run: generate(with_values=...) or the batch override of BatchHandler.submit
+        # (the path SMC / BO use for proposed parameters)
+        'supply_via': st.sampled_from(['with_values', 'with_values', 'submit-override']),
     })
 
 
@@ -282,9 +285,24 @@ def run_case(case):
     exp = {}
     for (kind, nm), rn in zip(req, req_names):
         exp[rn] = ref.val(nm) if kind == 'val' else ref.obs(nm)
-    with must_not_raise(P, 'generate(%d, %r, with_values=%r)' % (bs, req_names, sorted(supplied))):
+    # the override path addresses nodes of the compiled (reduced) net: only nodes the request depends on can be overridden
+    needed_nodes = set(nm for kind, nm in req)
+    for kind, nm in req:
+        needed_nodes |= ref.ancestors(nm)
+    override = (case.get('supply_via') == 'submit-override' and supplied and not via_node
+                and all(kind == 'val' for kind, nm in req)
+                and all(ref.n[nm]['kind'] != 'const' and nm in needed_nodes for nm in supplied))
+    with must_not_raise(P, 'generate(%d, %r, with_values=%r%s)' % (bs, req_names, sorted(supplied), ' via submit override' if override else '')):
         if via_node:
             got = {req_names[0]: m[req_names[0]].generate(bs, with_values=supplied or None)}
+        elif override:
+            import elfi.client
+            from elfi.model.elfi_model import ComputationContext
+            h = elfi.client.BatchHandler(m, ComputationContext(batch_size=bs, seed=seed), output_names=list(req_names))
+            h.submit(dict(supplied))
+            got, bi = h.wait_next()
+            got = {k: got[k] for k in req_names}
+            labels.append('supplied-via-submit-override')
         else:
             got = m.generate(bs, req_names, with_values=supplied or None, seed=seed)
     if set(got) != set(req_names):
